@@ -220,8 +220,11 @@ class t2incon(object):
         if (self.timing is None) or reset:
             outfile.write_values(['INCON'], 'header_short')
         else:
+            # the time shown in the header is the one the timing record below carries
+            # (15.9e), so that re-writing a file that has been read reproduces it exactly:
+            sumtim = float('%15.9e' % self.timing['sumtim'])
             outfile.write_values(['INCON -- INITIAL CONDITIONS FOR', self.num_blocks,
-                                  ' ELEMENTS AT TIME  ', self.timing['sumtim']], 'header_long')
+                                  ' ELEMENTS AT TIME  ', sumtim], 'header_long')
         for incon in self._blocklist:
             blkname = unfix_blockname(incon.block)
             if self.simulator == 'TOUGHREACT' and incon.permeability is not None:
